@@ -108,4 +108,48 @@ def absAt : List (Thread L τ) → Nat → τ → τ
 def Cfg.abs (c : Cfg L τ) : Cfg L τ :=
   ⟨fun j => absAt c.threads j (c.st j), c.threads.map (absThread c.st)⟩
 
+/-! ### Region-level view: threads as lists of critical regions, each cut into lines arbitrarily -/
+
+/-- a critical region on lock `k`, cut into an arbitrary list of lines -/
+structure Region (L τ : Type) where
+  k : Nat
+  lines : List (L → τ → L × τ)
+
+/-- sequential composition of the lines of a region -/
+def composeLines : List (L → τ → L × τ) → L → τ → L × τ
+  | [], l, x => (l, x)
+  | f :: fs, l, x => composeLines fs (f l x).1 (f l x).2
+
+/-- the effect of the whole region on (thread-local state, protected component) -/
+def Region.eff (r : Region L τ) : L → τ → L × τ := composeLines r.lines
+
+/-- `with lock_k:` followed by the lines -/
+def Region.prog (r : Region L τ) : List (Instr L τ) :=
+  .acq r.k :: (r.lines.map (Instr.upd r.k) ++ [.rel r.k])
+
+def progOf : List (Region L τ) → List (Instr L τ)
+  | [] => []
+  | r :: rs => r.prog ++ progOf rs
+
+/-- region-level thread and configuration -/
+structure RThread (L τ : Type) where
+  todo : List (Region L τ)
+  loc : L
+
+structure RCfg (L τ : Type) where
+  st : Nat → τ
+  threads : List (RThread L τ)
+
+def RThread.toThread (t : RThread L τ) : Thread L τ := ⟨progOf t.todo, none, t.loc⟩
+
+def RCfg.toCfg (c : RCfg L τ) : Cfg L τ := ⟨c.st, c.threads.map RThread.toThread⟩
+
+/-- region-level (sequential) semantics: one thread runs its next region to completion -/
+inductive RStep : RCfg L τ → RCfg L τ → Prop
+  | run {st pre post r rs l} :
+      RStep ⟨st, pre ++ ⟨r :: rs, l⟩ :: post⟩
+            ⟨upd1 st r.k (r.eff l (st r.k)).2, pre ++ ⟨rs, (r.eff l (st r.k)).1⟩ :: post⟩
+
+def RCfg.done (c : RCfg L τ) : Prop := ∀ t ∈ c.threads, t.todo = []
+
 end Operon.Lock
